@@ -28,7 +28,7 @@ PROPS = {
         "theorems": T("C19", ["truncateG_total", "caret_under_char", "displayCol_bounds", "truncate_len_le", "truncate_len_exact",
                                "truncate_short", "caret_prefix_len", "caret_prefix_tabs", "window_sound", "window_complete",
                                "window_has_reported_line", "no_excerpt", "render_header", "maxLineLength_ge_4", "context_is_2_1",
-                               "caret_under_char_repo", "natDigits_length_mono", "gutter_aligned"]),
+                               "caret_under_char_repo", "natDigits_length_mono", "gutter_aligned", "render_help_link"]),
         "suites": ["excerpt"],
         "assumptions": [
             "columns are byte columns (token.Position.Column counts bytes); visual alignment after multi-byte characters is not claimed",
@@ -173,7 +173,7 @@ PROPS = {
         "trusted_base": ["hand-written whole-program model GGV.Model.Prog, tied by the prog correspondence (real analyzers in-process vs model)", "APF extractor (go/ast + go/types, independent of gogreement)"],
     },
     "C17": {
-        "theorems": T("C17", ["codes_documented", "codes_are_the_sixteen", "doc_url_by_category", "analyzer_owns_category", "five_checkers", "render_header", "inline_ignore_removes", "inline_ignore_keeps_others", "diag_in_pkg_file"]),
+        "theorems": T("C17", ["codes_documented", "codes_are_the_sixteen", "doc_url_by_category", "analyzer_owns_category", "five_checkers", "render_header", "inline_ignore_removes", "inline_ignore_keeps_others", "diag_in_pkg_file"]) + ["GGV.Props.C19.render_help_link"],
         "suites": [("bin", {"mode": "wellformed"})],
         "binary": True, "table_diag": True,
         "assumptions": ["'exactly one code': the bracketed token right after 'error: ' is in the table and no OTHER table code occurs bracketed in the header (CTOR/TONL messages repeat their own code)",
